@@ -229,3 +229,113 @@ def boundary_args(m):
     out.append({"a": "append", "es": []})
     out.append({"a": "read", "from": 5, "to": 2})
     return out
+
+
+def flush_history(rng, n_calls, cfg, faults=0):
+    """C04: many flushes without waiting (batching), rotations in between, optional injected faults."""
+    m = Model()
+    steps = [{"a": "open", "cfg": cfg}]
+    fault_at = sorted(rng.sample(range(2, max(3, n_calls)), min(faults, max(0, n_calls - 3)))) if faults else []
+    for k in range(n_calls):
+        if k in fault_at:
+            call = rng.choice(["fdatasync", "fdatasync", "write"])
+            plan = [{"call": call, "nth": rng.choice([1, 1, 2, 3])}]
+            if rng.random() < 0.3:
+                plan.append({"call": "fdatasync", "nth": plan[0]["nth"] + 1})
+            steps.append({"a": "fault", "plan": plan})
+        steps.append(legal_op(rng, m, k, weights=["append"] * 5 + ["vote", "commit", "purge", "truncate"]))
+        r = rng.random()
+        if r < 0.5:
+            steps.append({"a": "flush"})
+            if rng.random() < 0.3:
+                steps.append({"a": "flush"})
+            if rng.random() < 0.25:
+                steps += [{"a": "wait_cb"}, {"a": "wait_idle"}]
+        elif r < 0.6:
+            steps.append({"a": "sleep_us", "n": rng.choice([50, 200, 1000])})
+    steps += [{"a": "flush"}, {"a": "wait_cb"}, {"a": "wait_idle"}]
+    return steps
+
+
+def purge_history(rng, n_calls, cfg, faults=0):
+    """C08: append / purge / flush cycles over small chunks so that chunk files become obsolete and are removed."""
+    m = Model()
+    steps = [{"a": "open", "cfg": cfg}]
+    fault_at = sorted(rng.sample(range(2, max(3, n_calls)), min(faults, max(0, n_calls - 3)))) if faults else []
+    for k in range(n_calls):
+        if k in fault_at:
+            steps.append({"a": "fault", "plan": [{"call": rng.choice(["fdatasync", "fdatasync", "unlink"]), "nth": rng.choice([1, 2])}]})
+        steps.append(legal_op(rng, m, k, weights=["append"] * 5 + ["purge"] * 3 + ["truncate", "vote", "commit"]))
+        r = rng.random()
+        if r < 0.45:
+            steps.append({"a": "flush"})
+            if rng.random() < 0.6:
+                steps += [{"a": "wait_cb"}, {"a": "wait_idle"}]
+                if rng.random() < 0.3:
+                    steps.append({"a": "read", "from": 0, "to": MAXI})
+    steps += [{"a": "flush"}, {"a": "wait_cb"}, {"a": "wait_idle"}, {"a": "read", "from": 0, "to": MAXI}]
+    if not faults:
+        steps += [{"a": "reopen", "cfg": cfg}, {"a": "read", "from": 0, "to": MAXI}]
+    return steps
+
+
+def cache_history(rng, n_calls, cfg, readers=False):
+    """C07/C15: small cache limits, reads and snapshot iteration while the worker is at arbitrary points."""
+    m = Model()
+    steps = [{"a": "open", "cfg": cfg}]
+    for k in range(n_calls):
+        steps.append(legal_op(rng, m, k, weights=["append"] * 6 + ["truncate"] * 2 + ["purge"] * 2 + ["vote", "commit"]))
+        r = rng.random()
+        if r < 0.35:
+            steps.append({"a": "flush"})
+        if rng.random() < 0.5:
+            steps.append({"a": "obs"})
+        if rng.random() < 0.2:
+            steps.append({"a": "iter"})
+        if readers and rng.random() < 0.15:
+            steps.append({"a": "readers", "k": rng.choice([2, 3, 4]), "m": 2})
+        if rng.random() < 0.15:
+            steps += [{"a": "flush"}, {"a": "wait_cb"}, {"a": "wait_idle"}, {"a": "drain"}]
+            if rng.random() < 0.3:
+                steps.append({"a": "reopen", "cfg": cfg_choices(rng, True)})
+    steps += [{"a": "flush"}, {"a": "wait_cb"}, {"a": "wait_idle"}, {"a": "drain"}, {"a": "obs"}]
+    return steps
+
+
+def drop_scenario(rng, variant):
+    """C14 (gated): the acknowledgement of the last flush has been received, the old worker is held at
+    `hold` with its remaining steps pending, the store is dropped and opened again, the new instance works,
+    then the old worker (if it still exists) is released."""
+    mr = rng.choice([2, 3, 2])
+    cfg = {"mr": mr}
+    m = Model()
+    steps = [{"a": "open", "cfg": cfg}]
+    n = rng.choice([3, 4, 6])
+    for k in range(n):
+        steps.append(legal_op(rng, m, k, weights=["append"]))
+    steps += [{"a": "flush"}, {"a": "wrun", "n": 1}]
+    # purge something that makes at least one chunk obsolete
+    if m.log:
+        c = m.log[min(len(m.log) - 1, rng.choice([1, 2, len(m.log) - 1]))]
+        steps.append({"a": "purge", "id": list(c)})
+        m.log = [e for e in m.log if e[1] > c[1]]
+        m.purged = c
+    steps.append({"a": "flush"})
+    hold = variant
+    steps.append({"a": "wuntil", "n": 1, "at": "cb"})
+    steps.append({"a": "w", "n": 1})  # the callback itself runs: the acknowledgement is received
+    if hold in ("unlink", "done"):
+        steps.append({"a": "wuntil", "n": 1, "at": hold})
+    if hold == "unlink2":
+        steps += [{"a": "wuntil", "n": 1, "at": "unlink"}, {"a": "w", "n": 1}]
+    steps += [{"a": "drop"}, {"a": "open", "cfg": cfg}, {"a": "obs"}]
+    k0 = 100
+    for k in range(rng.choice([1, 2, 3])):
+        steps.append(legal_op(rng, m, k0 + k, weights=["append"]))
+    if m.log and len(m.log) > 1:
+        c = m.log[0]
+        steps.append({"a": "purge", "id": list(c)})
+    steps += [{"a": "flush"}, {"a": "wfree", "n": 1}, {"a": "wrun", "n": 2}, {"a": "wait_cb"}, {"a": "obs"}]
+    steps += [{"a": "append", "es": [[max(m.term, m.last[0]) + 1, m.last[1] + 1, "zz", 2]]}, {"a": "flush"},
+              {"a": "wrun", "n": 2}, {"a": "wait_cb"}, {"a": "obs"}, {"a": "reopen", "cfg": cfg}, {"a": "read", "from": 0, "to": MAXI}]
+    return steps
